@@ -68,5 +68,5 @@ def run(r):
     ]
     if not r.replay:
         r.replay = None
-    return standard(r, "c21", ["theories/C21/Proofs.vo"], ["theories/C21/Model.vo"], ["ops", "api", "raw"],
+    return standard(r, "c21", ["theories/C21/Proofs.vo", "theories/C21/Full.vo", "theories/C21/Ulp.vo"], ["theories/C21/Model.vo"], ["ops", "api", "raw"],
                     classify=classify, pre=corpus)
